@@ -38,3 +38,49 @@ META["C19"] = {
     "level_note": ("Trusted: Go's time package and the system zone database as reference; inputs are rendered by fmt.Sprintf, outputs read by "
                    "an own RFC3339 parser. Not claimed: two-digit-year layout, zone abbreviations (PST), rounding rule of sub-second digits."),
 }
+
+add("C09", "TestC09",
+    rule=("Cases: gen.Shape (7 formats x 3 layout variants x 3 transform flavours, 3 encodings, optional BOM) with 0-6 generated records "
+          "(values biased to the format's delimiters/quotes/escapes and multi-byte runes), optionally malformed (truncate / overwrite / "
+          "insert), and 3-5 delivery schedules (1 byte, random 1..17, around 127/128/129 and 4095/4096/4097, forced cuts inside multi-byte "
+          "runes, CRLF pairs, escape pairs, multi-byte delimiters and the BOM, runs of <=3 (0,nil) reads, data returned with io.EOF). "
+          "Oracle: the transcript (records, error classes and texts, checksums) under each schedule equals the single-chunk transcript. "
+          "Non-trivial: >= 2 results before the terminal one and a schedule with a forced cut inside one of those byte pairs; distinct by "
+          "SHA-256 of the serialised case."),
+    quick={"checks": 1500, "shards": 4, "timeout": 600},
+    thorough={"checks": 20000, "shards": 16, "timeout": 3000},
+    floors={"cut=rune": 0.10, "cut=crlf": 0.10, "cut=escape": 0.10, "cut=bom": 0.10, "malformed": 0.10, "zero-reads": 0.2},
+    assumptions=["runs of (0,nil) reads are capped at 3 (bufio legitimately gives up with ErrNoProgress after 100)",
+                 "for the json format the digits after 'line ' in error texts are masked (documented as a rough number that depends on decoder pre-fetch)"])
+
+add("C16", "TestC16", level="fault_enumeration",
+    rule=("Cases: gen.Shape input (all 7 formats) with 0-5 records and a chunk schedule; for each input EVERY fault position p in "
+          "0..len(input) is enumerated (the reader delivers p bytes, then a non-EOF error: persistently, or once, then `resume` more bytes, "
+          "then forever). Oracle: a terminal result within N+3 Reads (N = length of the fault-free transcript), repeated unchanged by two "
+          "further Reads; all earlier results except possibly the last equal the fault-free results (kind, JSON, checksum). "
+          "evaluations counts inputs; counters.fault_positions counts transform runs. Non-trivial: input with >= 2 results and > 2 bytes "
+          "(so faults fall strictly inside); distinct by SHA-256 of the serialised case. exhaustive per input, not globally."),
+    quick={"checks": 400, "shards": 4, "timeout": 600},
+    thorough={"checks": 6000, "shards": 16, "timeout": 3000},
+    floors={"transient": 0.3, "format=csv": 0.05, "format=edi": 0.05, "format=xml": 0.05, "format=json": 0.05,
+            "format=fixed-length": 0.05, "format=fixedlength2": 0.05, "format=csv2": 0.05},
+    assumptions=["io.EOF after a fault counts as a terminal result (the old fixed-length header/footer reader ends the input at a line "
+                 "matching no header); such cases are counted in counters.fault_masked_as_eof, not raised"],
+    coverage_extra={"exhaustive_per_input": True})
+
+META["C09"] = {
+    "technique": "metamorphic property-based testing (chunked delivery vs single chunk)",
+    "design_ref": "DESIGN.md §5 C09",
+    "level_text": ("Generated-input search over (format, schema, input, delivery schedule): every schedule must reproduce the single-chunk "
+                   "transcript byte for byte. Schedules are constructed to cut inside multi-byte runes, CRLF, escape pairs, delimiters and "
+                   "the BOM; exploration only - boundaries are sampled, not enumerated."),
+    "level_note": "Trusted: the harness' chunking reader; inputs <= a few KB so buffer roll-over is reached through small chunks rather than large inputs.",
+}
+META["C16"] = {
+    "technique": "fault-position enumeration over generated inputs (metamorphic vs fault-free run)",
+    "design_ref": "DESIGN.md §5 C16",
+    "level_text": ("For each generated input every byte offset is tried as the position of a persistent or transient-then-persistent read "
+                   "error; the transform must reach a sticky terminal result within N+3 Reads and must not corrupt earlier results. "
+                   "Exhaustive per input over fault positions, sampled over inputs/schemas."),
+    "level_note": "Trusted: the fault-injecting reader of the harness. io.EOF after a fault is accepted as terminal (counted, see evidence counters).",
+}
